@@ -91,6 +91,24 @@ pub open spec fn want_fields(q: &Query, s: &Schema, nz: Normalization, set: Seq<
 
 // ---- the alias case: a selection that is exactly one fragment spread is the fragment's own type
 pub open spec fn alias_case(q: &Query, set: Seq<SelectionId>) -> bool { set.len() == 1 && q.selections@[set[0].0 as int] is FragmentSpread }
+// ---- C01.1 for the struct of one variant of an abstract position: the members contributed by the selections on that variant, in order:
+// a spread of a fragment on the variant -> one flattened member; an inline fragment -> the members of ITS OWN sub-selection
+pub open spec fn want_vfields<'a>(q: &'a Query, s: &Schema, nz: Normalization, vs: Seq<&'a (SelectionId, &'a Selection, VariantSelection<'a>)>, vt: TypeId, n: int) -> Seq<FieldView>
+    decreases n
+{
+    if n <= 0 { Seq::empty() }
+    else {
+        let prev = want_vfields(q, s, nz, vs, vt, n - 1);
+        match vs[n - 1].2 {
+            VariantSelection::FragmentSpread(p) => prev.push(FieldView {
+                gname: None, rname: snake(p.1.name@), ftype: p.1.name@, quals: seq![GraphqlTypeQualifier::Required], flatten: true, depr: None, boxed: frag_recursive(q, p.0) }),
+            VariantSelection::InlineFragment(_) => {
+                let sub = subsel(q, vs[n - 1].0.0 as int);
+                if alias_case(q, sub) { prev } else { prev + want_fields(q, s, nz, sub, vt, sub.len() as int) }
+            },
+        }
+    }
+}
 
 // ---- frame and locality
 pub open spec fn frame(o: &ExpandedSelection, n: &ExpandedSelection) -> bool {
@@ -178,6 +196,13 @@ pub proof fn lemma_own_fields_foreign(a: Seq<ExpandedField>, b: Seq<ExpandedFiel
 {
     if n > a.len() { lemma_own_fields_foreign(a, b, from, sid, n - 1); }
     else { lemma_own_fields_same(a, b, from, sid, n); }
+}
+pub proof fn lemma_own_fields_split(fs: Seq<ExpandedField>, from: int, mid: int, sid: ResponseTypeId, n: int)
+    requires 0 <= from <= mid <= n <= fs.len()
+    ensures own_fields(fs, from, sid, n) =~= own_fields(fs, from, sid, mid) + own_fields(fs, mid, sid, n)
+    decreases n - mid
+{
+    if n > mid { lemma_own_fields_split(fs, from, mid, sid, n - 1); }
 }
 pub broadcast proof fn lemma_own_fields_push(a: Seq<ExpandedField>, v: ExpandedField, from: int, sid: ResponseTypeId, m: int)
     requires 0 <= from <= a.len(), m == a.len() + 1
